@@ -29,7 +29,7 @@ def mods():
     return cpppo, A, P
 
 
-ALL_FORMS = ('int', 'path', 'call', 'callpath', 'prefix')
+ALL_FORMS = ('int', 'path', 'call', 'callpath', 'prefix', 'pathmissing')
 
 
 class Enc(object):
@@ -41,7 +41,7 @@ class Enc(object):
     data artifact (relative keys)."""
 
     def __init__(self, E, expect=None, valid=True, ibound=None, k=None, results=None, predata=None,
-                 unit=None, classes=(), zero=False, kkey=None, greedy=False, soft_ibound=None):
+                 unit=None, classes=(), zero=False, kkey=None, greedy=False, soft_ibound=None, whole=False):
         self.E = bytes(E)
         self.expect = expect or {}
         self.valid = valid
@@ -54,6 +54,7 @@ class Enc(object):
         self.kkey = kkey            # relative key of the count as parsed from E (then k only holds when that field was read)
         self.greedy = greedy        # this particular encoding is only delimited by a limit (overrides Entry.selfdelim)
         self.soft_ibound = soft_ibound  # a declared end that cpppo does not hand to the sub-parser as a limit (observation only)
+        self.whole = whole          # this encoding must be presented completely buffered (see Entry.whole)
         self.zero = zero            # a repeat count of 0: whether the machine then counts as terminal is not stated
 
 
@@ -128,17 +129,22 @@ def d_repeat(draw):
 # Tier 1: framework primitives
 
 def _rep_kw(p):
-    """repeat given as int or as a data path ('..k' relative to the machine's own context)."""
-    return '..k' if p.get('rf') == 'path' else p['k']
+    """repeat given as int or as a data path ('..k' relative to the machine's own context); 'missing': a path that
+    does not exist, which dfa_base.delegate documents as 0 cycles."""
+    return '..k' if p.get('rf') in ('path', 'missing') else p['k']
 
 
 def _rep_predata(p):
     return {'k': p['k']} if p.get('rf') == 'path' else {}
 
 
+def d_rep_form(draw, k, choices):
+    return d_pick(draw, list(choices) + (['missing'] if k == 0 else []))
+
+
 def _p_octets(draw):
     k = d_repeat(draw)
-    return {'k': k, 'rf': d_pick(draw, ['int', 'int', 'path']), 'b': d_bytes(draw, k, k)}
+    return {'k': k, 'rf': d_rep_form(draw, k, ['int', 'int', 'path']), 'b': d_bytes(draw, k, k)}
 
 
 def _e_octets(p):
@@ -212,7 +218,7 @@ add(Entry('prim:octets_struct', 'primitive', _p_ostruct, _e_ostruct, _m_ostruct)
 
 def _p_replist(draw):
     k = d_repeat(draw)
-    return {'k': k, 'rf': d_pick(draw, ['int', 'path', 'path']),
+    return {'k': k, 'rf': d_rep_form(draw, k, ['int', 'path', 'path']),
             'v': [d_int(draw, 0, 0xFFFF) for _ in range(k)]}
 
 
@@ -977,7 +983,7 @@ add(Entry('connection_data', 'cpf_item', d_conn_data, _e_conn_data, _m_conn_data
 
 # -- CPF
 
-ITEM_KINDS = ('null', 'conn_id', 'conn_data', 'usend', 'usend_opaque', 'comm', 'identity', 'legacy', 'unknown', 'empty_known')
+ITEM_KINDS = ('null', 'conn_id', 'conn_data', 'usend', 'usend_opaque', 'usend_d2', 'comm', 'identity', 'legacy', 'unknown', 'empty_known')
 
 
 def d_item(draw, kinds=ITEM_KINDS):
@@ -992,6 +998,15 @@ def d_item(draw, kinds=ITEM_KINDS):
         return {'k': kind, 'u': d_usend(draw)}
     if kind == 'usend_opaque':
         return {'k': kind, 'b': _p_usend_other(draw)['b']}
+    if kind == 'usend_d2':
+        # service 0xD2 inside an unconnected-data item: unconnected_send.is_uerr() pulls 4 symbols, pushes them back,
+        # and takes it for an Unconnected Send error (exactly: service, reserved, status < 0x10, ext size 0) or for an
+        # opaque reply (anything longer than 6 bytes, or with status >= 0x10 / an extended status)
+        if d_pick(draw, (True, False)):
+            return {'k': kind, 'b': hx(struct.pack('BBBB', 0xD2, 0, d_int(draw, 0, 0x0F), 0))}
+        if d_pick(draw, (True, False)):
+            return {'k': kind, 'b': hx(struct.pack('BBBB', 0xD2, 0, d_int(draw, 0x10, 0xFF), d_int(draw, 0, 3))) + d_bytes(draw, 0, 6)}
+        return {'k': kind, 'b': hx(struct.pack('BBBB', 0xD2, 0, d_int(draw, 0, 0xFF), d_int(draw, 0, 3))) + d_bytes(draw, 3, 8)}
     if kind == 'comm':
         return {'k': kind, 'c': d_comm_service(draw)}
     if kind == 'identity':
@@ -1013,7 +1028,7 @@ def item_type_body(it):
         return 0x00B1, enc_conn_data(it['d'])
     if k == 'usend':
         return 0x00B2, enc_usend(it['u'])
-    if k == 'usend_opaque':
+    if k in ('usend_opaque', 'usend_d2'):
         return 0x00B2, unhx(it['b'])
     if k == 'comm':
         return 0x0100, enc_comm_service(it['c'])
@@ -1087,6 +1102,7 @@ def _e_cpf(p, prefix=''):
     kinds = sorted({it['k'] for it in p['items']})
     return Enc(E, expect=exp, valid=valid, ibound=ibound, unit=2, k=len(p['items']), kkey=prefix + 'CPF.count',
                results=lambda d: len(dig(d, prefix + 'CPF.item', []) or []), greedy=greedy, soft_ibound=soft,
+               whole=any(it['k'] == 'usend_d2' for it in p['items']),     # is_uerr() looks ahead with bare next()
                classes=['cpf:last_item_length=%s' % ('exact' if valid else 'short' if p['ld'] < 0 else 'long')]
                + ['cpf:item=' + k for k in kinds] + ['cpf:items=%d' % len(p['items'])])
 
@@ -1114,7 +1130,8 @@ def _e_send_data(p, prefix='send_data.'):
         exp[prefix + 'interface'] = p['ifc']
         exp[prefix + 'timeout'] = p['tmo']
     return Enc(hdr + c.E, expect=exp, valid=c.valid, ibound=None if c.ibound is None else 6 + c.ibound, unit=2, classes=c.classes,
-               k=c.k, kkey=c.kkey, results=c.results, greedy=c.greedy, soft_ibound=None if c.soft_ibound is None else 6 + c.soft_ibound)
+               k=c.k, kkey=c.kkey, results=c.results, greedy=c.greedy, soft_ibound=None if c.soft_ibound is None else 6 + c.soft_ibound,
+               whole=c.whole)
 
 
 def _m_send_data(p, **kw):
@@ -1184,7 +1201,7 @@ def _e_cip(p):
         inner = _e_cpf(p['c'], prefix='CIP.%s.' % what)
     return Enc(inner.E, expect=inner.expect, valid=inner.valid, ibound=inner.ibound, unit=2, predata=pre,
                classes=['cip:' + what] + inner.classes, k=inner.k, kkey=inner.kkey, results=inner.results,
-               greedy=inner.greedy, soft_ibound=inner.soft_ibound)
+               greedy=inner.greedy, soft_ibound=inner.soft_ibound, whole=inner.whole)
 
 
 _CIP_CACHE = {}
@@ -1590,3 +1607,92 @@ def _e_fwd_close_reply(p):
 
 
 _svc_entry('forward_close_reply', 'cm', _p_fwd_close_reply, _e_fwd_close_reply)
+
+
+# Message Router: Multiple Service Packet.  The request names its target by path (an instantiated Message Router
+# must exist, as in the simulator); the reply has no path and is decoded by device.dialect (the client sets it to
+# logix.Logix).  Header: service [, path | reserved, status], number, number x offset, then the concatenated
+# services; the offsets dfa runs repeat='.multiple.number'.
+
+def _multiple_setup():
+    from cpppo.server.enip import device, logix
+    if device.dialect is None:
+        device.dialect = logix.Logix                     # what client.connector.__init__ does
+    if not device.lookup(0x02, 1):
+        logix.Logix(name='c10 router', instance_id=1)        # what the simulator's main() does
+    return logix.Logix.parser
+
+
+def d_sub_request(draw):
+    kind = d_pick(draw, ('read_tag', 'read_frag', 'get_attribute_single'))
+    path = d_req_path(draw)
+    if kind == 'read_tag':
+        return {'k': kind, 'path': path, 'n': d_int(draw, 1, 100)}
+    if kind == 'read_frag':
+        return {'k': kind, 'path': path, 'n': d_int(draw, 1, 100), 'off': d_int(draw, 0, 1000)}
+    return {'k': kind, 'path': path}
+
+
+def enc_sub_request(r):
+    if r['k'] == 'read_tag':
+        return _req_head(0x4C, r) + struct.pack('<H', r['n'])
+    if r['k'] == 'read_frag':
+        return _req_head(0x52, r) + struct.pack('<HI', r['n'], r['off'])
+    return _req_head(0x0E, r)
+
+
+def d_sub_reply(draw):
+    kind = d_pick(draw, ('write_tag_reply', 'read_tag_reply_error', 'set_attribute_single_reply'))
+    return {'k': kind, 'st': d_status(draw) if kind != 'read_tag_reply_error' else {'code': d_int(draw, 1, 5), 'ext': [d_int(draw, 0, 0xFFFF)]}}
+
+
+def enc_sub_reply(r):
+    svc = {'write_tag_reply': 0xCD, 'read_tag_reply_error': 0xCC, 'set_attribute_single_reply': 0x90}[r['k']]
+    return _rpy_head(svc, r)
+
+
+def _enc_multiple_body(bodies):
+    n = len(bodies)
+    offs, pos = [], 2 + 2 * n
+    for b in bodies:
+        offs.append(pos)
+        pos += len(b)
+    return struct.pack('<H', n) + b''.join(struct.pack('<H', o) for o in offs) + b''.join(bodies), offs
+
+
+def _p_multiple(draw):
+    return {'subs': [d_sub_request(draw) for _ in range(d_int(draw, 1, 3))]}
+
+
+def _e_multiple(p):
+    body, offs = _enc_multiple_body([enc_sub_request(r) for r in p['subs']])
+    head = b'\x0a' + enc_epath([{'t': 'class', 'w': 8, 'v': 2}, {'t': 'instance', 'w': 8, 'v': 1}])[0]
+    exp = {'service': 0x0A, 'multiple.number': len(offs), 'multiple.offsets': offs, 'multiple.request': ('len', len(offs))}
+    for i, r in enumerate(p['subs']):
+        exp['multiple.request#%d' % i] = ('sub', {'service': {'read_tag': 0x4C, 'read_frag': 0x52, 'get_attribute_single': 0x0E}[r['k']]})
+    return Enc(head + body, expect=exp, unit=2, k=len(offs), kkey='multiple.number',
+               results=lambda d: len(dig(d, 'multiple.offsets', []) or []))
+
+
+def _m_multiple(p, **kw):
+    return _multiple_setup()
+
+
+add(Entry('svc:multiple', 'service', _p_multiple, _e_multiple, _m_multiple, selfdelim=False,
+          forms=('int', 'path', 'call', 'callpath'), places=('outer',), whole=True))
+
+
+def _p_multiple_reply(draw):
+    return {'st': {'code': d_pick(draw, (0x00, 0x1E)), 'ext': []}, 'subs': [d_sub_reply(draw) for _ in range(d_int(draw, 1, 3))]}
+
+
+def _e_multiple_reply(p):
+    body, offs = _enc_multiple_body([enc_sub_reply(r) for r in p['subs']])
+    exp = _rpy_expect(0x8A, p)
+    exp.update({'multiple.number': len(offs), 'multiple.offsets': offs, 'multiple.request': ('len', len(offs))})
+    return Enc(_rpy_head(0x8A, p) + body, expect=exp, unit=2, k=len(offs), kkey='multiple.number',
+               results=lambda d: len(dig(d, 'multiple.offsets', []) or []))
+
+
+add(Entry('svc:multiple_reply', 'service', _p_multiple_reply, _e_multiple_reply, _m_multiple, selfdelim=False,
+          forms=('int', 'path', 'call', 'callpath'), places=('outer',), whole=True))
